@@ -1,5 +1,5 @@
 (* C15: evaluation of the model on recorded cases (correspondence check). *)
-From CJ Require Import Common.Base C15.Model C15.ModelName C15.ModelObf C15.ModelAny C15.ModelDns C15.ModelB32 C15.ModelExch C15.ModelPb.
+From CJ Require Import Common.Base C15.Model C15.ModelName C15.ModelObf C15.ModelAny C15.ModelDns C15.ModelB32 C15.ModelExch C15.ModelPb C15.ModelDot.
 
 Definition obs := (bool * bytes * bool * bytes)%type.
 
@@ -336,6 +336,14 @@ Definition chk_anypb_bytes (dst : N) (d : bytes) (ok1 ok2 : bool) (o : pbval) : 
   | Panic => false
   end.
 
+(* ---- DoT framing ---- *)
+Definition chk_dot_rt (msgs : list bspec) (stream : bspec) (panicked : bool) (got : list bspec) (clean : bool) : bool :=
+  let '(s, pn) := dot_send (map bspec_val msgs) in
+  Bool.eqb pn panicked && bspec_matches stream s &&
+  let '(ms, ok) := dot_recv s in all2 (fun m sp => bspec_matches sp m) ms got && Bool.eqb ok clean.
+Definition chk_dot_recv (s : bytes) (got : list bytes) (clean : bool) : bool :=
+  let '(ms, ok) := dot_recv s in list_eqb bytes_eqb ms got && Bool.eqb ok clean.
+
 Inductive vcase :=
 | CFmt (op : N) (d : bspec) (o : obs_spec)
 | CNameRt (n : name) (o : name_rt_obs)
@@ -353,7 +361,9 @@ Inductive vcase :=
 | CNameStr (n : name) (s : bytes)
 | CPbDec (kind : N) (d : bytes) (ok : bool) (o : pbval)
 | CPbEnc (v : pbval) (out : bytes)
-| CAnyBytes (dst : N) (d : bytes) (ok1 ok2 : bool) (o : pbval).
+| CAnyBytes (dst : N) (d : bytes) (ok1 ok2 : bool) (o : pbval)
+| CDotRt (msgs : list bspec) (stream : bspec) (panicked : bool) (got : list bspec) (clean : bool)
+| CDotRecv (s : bytes) (got : list bytes) (clean : bool).
 
 Definition chk (c : vcase) : bool :=
   match c with
@@ -374,4 +384,6 @@ Definition chk (c : vcase) : bool :=
   | CPbDec k d ok o => chk_pb_dec k d ok o
   | CPbEnc v out => chk_pb_enc v out
   | CAnyBytes dst d ok1 ok2 o => chk_anypb_bytes dst d ok1 ok2 o
+  | CDotRt ms st pn got cl => chk_dot_rt ms st pn got cl
+  | CDotRecv s got cl => chk_dot_recv s got cl
   end.
